@@ -17,6 +17,7 @@ type hist = {
   watchers : (int * int * int) array;   (* maxbatch, maxattempts, maxop *)
   lines : line list;
   ended : bool;
+  hung : bool;     (* the real-time watchdog fired: a genuine deadlock froze the bubble *)
 }
 
 let ios = int_of_string
@@ -26,7 +27,7 @@ let eff v d = if v <= 0 then d else v
 
 let read path : hist =
   let ic = open_in path in
-  let cfg = ref [] and ws = ref [] and lines = ref [] and in_log = ref false and ended = ref false in
+  let cfg = ref [] and ws = ref [] and lines = ref [] and in_log = ref false and ended = ref false and hung = ref false in
   (try
      while true do
        let l = input_line ic in
@@ -40,7 +41,8 @@ let read path : hist =
        else
          (match w with
           | ["winddown"] -> ended := true; raise Exit
-          | ["eof"] | ["hang"] -> raise Exit
+          | ["hang"] -> hung := true; raise Exit
+          | ["eof"] -> raise Exit
           | t :: src :: rest when (match int_of_string_opt t with Some _ -> true | None -> false) ->
               lines := { t = ios t; src; w = rest } :: !lines
           | _ -> ())
@@ -50,7 +52,7 @@ let read path : hist =
   match !cfg with
   | [g; bufcap; errfull; limiter; flush; capint; audit; maxop; pause; maxconc] ->
       { gen = g; bufcap; errfull = errfull <> 0; limiter = limiter <> 0; flush; capint; audit; maxop;
-        pause; maxconc; watchers = Array.of_list (List.rev !ws); lines = List.rev !lines; ended = !ended }
+        pause; maxconc; watchers = Array.of_list (List.rev !ws); lines = List.rev !lines; ended = !ended; hung = !hung }
   | _ -> failwith "cfg"
 
 let timeout_of h w =
@@ -307,12 +309,22 @@ let accounting ?(check_needs = true) ?(check_inflight = true) h : string list =
 let c15 h : string list =
   let calls = calls_of h in
   let hits = ref [] in
-  let shut = ref false in
+  let shut = ref false and parked = ref 0 and k = ref 0 in
+  let parked_calls = Hashtbl.create 8 in
   List.iter (fun ln ->
       match ln.src, ln.w with
       | "L", ["shutdown"] -> shut := true
+      | "D", "act" :: "enq" :: _ ->
+          let c = calls.(!k) in
+          (* a call is parked at the hook only if it passes validation: it then stays pending until released *)
+          if c.hold && not c.nil && c.cw >= 0 then (Hashtbl.replace parked_calls !k (); incr parked);
+          incr k
+      | _, ["enqret"; c; _] -> if Hashtbl.mem parked_calls (ios c) then (Hashtbl.remove parked_calls (ios c); decr parked)
+      | "D", ["act"; "release"; c] -> if Hashtbl.mem parked_calls (ios c) then (Hashtbl.remove parked_calls (ios c); decr parked)
       | "D", ["sample"; _; buf; _; pend] ->
           if ios buf > h.bufcap then hits := (Printf.sprintf "c15:overfull t=%d OperationsInBuffer()=%s exceeds the buffer size %d" ln.t buf h.bufcap) :: !hits;
+          if not !shut && ios pend - !parked > 0 && ios buf < h.bufcap && not h.errfull then
+            hits := (Printf.sprintf "c15:blocked-with-space gen=%d t=%d %d Enqueue calls are blocked although the buffer holds %s of %d" h.gen ln.t (ios pend - !parked) buf h.bufcap) :: !hits;
           if !shut && ios pend > 0 then
             (* callers parked at the hook are released by the harness before it stops *)
             hits := (Printf.sprintf "c15:blocked-after-shutdown gen=%d t=%d %s Enqueue calls are still blocked after the shutdown event" h.gen ln.t pend) :: !hits
@@ -344,9 +356,11 @@ let c16 h : string list =
           if !nshut > 1 then hits := (Printf.sprintf "c16:shutdown-twice t=%d" ln.t) :: !hits
       | "L", ("batch" | "request" | "giveme" | "capread" | "flushstart") :: _ ->
           if !nshut > 0 then hits := (Printf.sprintf "c16:activity-after-shutdown t=%d %s after the shutdown event" ln.t (List.hd ln.w)) :: !hits
+      | _, ["apipanic"; k] -> hits := (Printf.sprintf "c16:api-panic gen=%d t=%d %s() panicked" h.gen ln.t k) :: !hits
       | _, ["setterquiet"] -> hits := (Printf.sprintf "c16:setter-after-start t=%d a With* setter after Start did not panic" ln.t) :: !hits
       | "D", ["sample"; _; _; _; _] -> last_state := Some (ln.t, !stop_seen && !started && !nshut = 0)
       | _ -> ()) h.lines;
+  if h.hung then hits := (Printf.sprintf "c16:hang gen=%d the scenario deadlocked (real-time watchdog)" h.gen) :: !hits;
   (match !last_state with
    | Some (t, true) when h.ended ->
        hits := (Printf.sprintf "c16:not-terminated t=%d stop was requested on a started Batcher but there is no shutdown event by the end (a pause time later)" t) :: !hits
@@ -539,11 +553,18 @@ let c08 h : string list =
 
 let c11 h = accounting h
 let c03 h = accounting ~check_inflight:false h
-let c10 h = accounting ~check_needs:false h
+let c10 h =
+  let hyp = Array.for_all (fun (_, _, wm) -> wm <= eff h.maxop (60_000 * ms)) h.watchers in
+  accounting ~check_needs:false h
+  @ (if hyp && h.gen = 2 && h.maxconc > 0 then
+       List.filter_map (fun ln -> match ln.src, ln.w with
+           | "L", ["auditfail"; _; "1"] -> Some (Printf.sprintf "c10:slots-drained t=%d an audit drained batch slots that were in use (no watcher outlasts the Batcher's MaxOperationTime)" ln.t)
+           | _ -> None) h.lines
+     else [])
 
 let monitor (pid : string) (h : hist) : string list =
   match pid with
-  | "C01" -> c01 h | "C02" -> c02 h | "C03" -> c03 h | "C05" -> c05 h | "C08" -> c08 h @ c01 h
+  | "C01" -> c01 h @ c08 h | "C02" -> c02 h | "C03" -> c03 h | "C05" -> c05 h | "C08" -> c08 h @ c01 h
   | "C10" -> c10 h | "C11" -> c11 h | "C12" -> c12 h | "C13" -> c13 h @ c01 h | "C14" -> c14 h
   | "C15" -> c15 h | "C16" -> c16 h | "C19" -> c19 h
   | _ -> []
